@@ -78,7 +78,9 @@ fn funcs_of(c: &VCase) -> Vec<FuncS> {
             f.public = i % 2 == 0;
             f.recv = recv;
             f.index = *ix;
-            f.args = args.iter().enumerate().map(|(k, a)| (format!("a{k}"), aty_mty(a))).collect();
+            // some tables use parameter names that collide with the wrapper's own local
+            let names: [&str; 2] = if c.sig % 3 == 0 { ["f", "f_"] } else if c.sig % 3 == 1 { ["f_", "f"] } else { ["a0", "a1"] };
+            f.args = args.iter().enumerate().map(|(k, a)| (names[k].to_string(), aty_mty(a))).collect();
             f.ret = ret_mty(ret);
             f
         })
